@@ -122,17 +122,28 @@ HasBref(r) ==
     [] r.k \in {"seq","alt"} -> \E x \in 1..Len(r.xs) : HasBref(r.xs[x])
     [] r.k \in {"grp","ncg","rep"} -> HasBref(r.r)
     [] OTHER -> FALSE
-(* A group under an optional quantifier (min = 0) that itself sits inside a loop: when a later iteration of *)
-(* the loop takes the optional part zero times, Perl/PCRE/Java keep what an earlier iteration captured,    *)
-(* ECMAScript (and the QT3 expectation test_p303, ^((.)?a\2)+$ on babadad) forget it.  Captures of such    *)
-(* patterns - and, through back-references, their language - are UNSPEC.                                  *)
-RECURSIVE HasGrp(_), OptGrp(_), IterAmbig(_)
+(* Nested repeating constructs.  F&O 3.1 5.6.1: "If a subexpression matched more than once ... only the last    *)
+(* substring that it matched will be captured.  Note that this rule is not sufficient in all cases to ensure *)
+(* an unambiguous result, especially in cases where (a) the regular expression contains nested repeating     *)
+(* constructs, and/or (b) the repeating construct matches a zero-length string.  In such cases it is         *)
+(* implementation-dependent which substring is captured."  The case that matters: a quantified term R with a *)
+(* group g inside it sits inside a loop, and in a LATER execution of R the group does not participate -      *)
+(* because R runs zero times (min = 0) or because g lies in an alternative that R's last execution does not  *)
+(* take.  Perl/PCRE/Java keep what the earlier execution captured; ECMAScript, the QT3 expectation test_p303 *)
+(* (^((.)?a\2)+$ on babadad) and this engine (groups inside a Repeat are cleared when the Repeat is entered)  *)
+(* forget it.  Captures of such patterns - and, through back-references, their language - are UNSPEC.        *)
+RECURSIVE HasGrp(_), AltGrp(_), OptGrp(_), IterAmbig(_)
 HasGrp(r) == CASE r.k = "grp" -> TRUE
                [] r.k \in {"seq","alt"} -> \E x \in 1..Len(r.xs) : HasGrp(r.xs[x])
                [] r.k \in {"ncg","rep"} -> HasGrp(r.r)
                [] OTHER -> FALSE
-OptGrp(r) ==                                  \* some rep node with min = 0 has a group in its body
-  CASE r.k = "rep" -> (r.min = 0 /\ HasGrp(r.r)) \/ OptGrp(r.r)
+AltGrp(r) ==                                  \* some alternation of >= 2 branches has a group in a branch
+  CASE r.k = "alt" -> (Len(r.xs) >= 2 /\ HasGrp(r)) \/ \E x \in 1..Len(r.xs) : AltGrp(r.xs[x])
+    [] r.k = "seq" -> \E x \in 1..Len(r.xs) : AltGrp(r.xs[x])
+    [] r.k \in {"grp","ncg","rep"} -> AltGrp(r.r)
+    [] OTHER -> FALSE
+OptGrp(r) ==                                  \* some rep node has in its body a group that an execution of it may skip
+  CASE r.k = "rep" -> (HasGrp(r.r) /\ (r.min = 0 \/ AltGrp(r.r))) \/ OptGrp(r.r)
     [] r.k \in {"seq","alt"} -> \E x \in 1..Len(r.xs) : OptGrp(r.xs[x])
     [] r.k \in {"grp","ncg"} -> OptGrp(r.r)
     [] OTHER -> FALSE
